@@ -217,3 +217,75 @@ func c11CanvasCase(r *fw.Rec, s azref.Spec) {
 	}
 	r.Nontrivial("canvas|" + azSpecName(s) + "|" + string(text))
 }
+
+// azSymbolWithDataWords builds a symbol whose data fill exactly d codewords: a short random
+// token walk is no help in hitting a length, so the stream is Upper-table characters (5 bits
+// each) - letters and spaces, with binary-shift runs and digits-table stretches mixed in -
+// counted so that the stuffed stream ends in codeword d.  nil if stuffing moved the count.
+func azSymbolWithDataWords(rng *fw.Rand, s azref.Spec, d int) (*azref.Symbol, []byte) {
+	ws := s.WordSize()
+	for try := 0; try < 12; try++ {
+		target := d*ws - rng.Intn(3) - try // bits
+		if target < 5 {
+			target = 5
+		}
+		enc := azref.NewEncoder()
+		for enc.Len()+5 <= target {
+			left := target - enc.Len()
+			switch k := rng.Intn(40); {
+			case k == 0 && left > 60: // a short binary-shift run
+				n := 1 + rng.Intn(5)
+				b := make([]byte, n)
+				for i := range b {
+					b[i] = byte(rng.Intn(256))
+				}
+				enc.BinaryShift(b)
+			case k == 1 && left > 40: // a stretch in the Digit table and back
+				enc.Latch(azref.Digit)
+				for i := rng.Intn(5); i >= 0; i-- {
+					enc.Char(2 + rng.Intn(10))
+				}
+				enc.Latch(azref.Upper)
+			default:
+				enc.Char(1 + rng.Intn(27)) // space, A..Z
+			}
+		}
+		if sym, ok := azref.Build(s, enc.Bits(), 3); ok && sym.DataWords == d {
+			return sym, enc.Text()
+		}
+	}
+	return nil, nil
+}
+
+// c11ModeSweep: the mode message announces (layers, data codewords); every announceable pair of
+// a size is a different 28/40-bit message with different Reed-Solomon check nibbles, and the
+// locating stage has to read it from the image before anything can be decoded.  One clean
+// symbol per pair d in [lo, hi), read as an image at 3 px/module.
+func c11ModeSweep(r *fw.Rec, s azref.Spec, lo, hi int) {
+	rng := r.Rng
+	for d := lo; d < hi; d++ {
+		sym, text := azSymbolWithDataWords(rng, s, d)
+		if sym == nil {
+			r.Tally("mode_sweep_pairs_not_built")
+			continue
+		}
+		want := latin1String(string(text))
+		rot := rng.Intn(4)
+		res, err := azReadImage(azRender(sym.Matrix, 3, 4, rot))
+		r.Evals(1)
+		info := map[string]interface{}{"spec": azSpecName(s), "data_words": d, "rotation": rot * 90, "text_hex": fmt.Sprintf("%x", text)}
+		if err != nil {
+			r.Violation("model-mismatch", "aztec.reader:mode-message-sweep:"+azErrKind(err), fmt.Sprintf("clean %s symbol with %d data codewords (of %d) at 3 px/module, rotated %d degrees, was not read: %v", azSpecName(s), d, s.TotalWords(), rot*90, err), info)
+			return
+		}
+		if res.GetText() != want {
+			r.Violation("model-mismatch", "aztec.reader:misread", fmt.Sprintf("clean %s symbol with %d data codewords read as other text", azSpecName(s), d), info)
+			return
+		}
+		r.Tally("mode_sweep_pairs_read")
+		if d > 1024 {
+			r.Tally("mode_sweep_pairs_read_more_than_1024_data_words")
+		}
+		r.NontrivialH(hash64s(fmt.Sprint("modesweep|", s, d)))
+	}
+}
